@@ -189,8 +189,76 @@ class Walk:
         # anything else (casts of calls for their effect, ...) carries no arithmetic
 
 
+def simplify(body):
+    """Rewrites of the syntax tree that keep the meaning and bring a loop into the shape the analysis reads: a local that only names a
+    path (`const int old_size = *size;`, never assigned again) is replaced by that path; a local pointer that is assigned once, from the
+    realloc of a buffer, stands for that buffer from then on; `&x[i]` is `x + i`."""
+    import copy
+    body = copy.deepcopy(body)
+    assigned = {}
+    def count_assign(n):
+        if isinstance(n, dict):
+            if n.get("kind") in ("BinaryOperator", "CompoundAssignOperator") and (n.get("opcode") == "=" or n.get("kind") == "CompoundAssignOperator"):
+                l = strip(n["inner"][0])
+                if l.get("kind") == "DeclRefExpr": assigned.setdefault(l["referencedDecl"]["name"], []).append(n)
+            if n.get("kind") == "UnaryOperator" and n.get("opcode") in ("++", "--"):
+                l = strip(n["inner"][0])
+                if l.get("kind") == "DeclRefExpr": assigned.setdefault(l["referencedDecl"]["name"], []).append(n)
+            for c in n.get("inner", []) or []: count_assign(c)
+    count_assign(body)
+    alias = {}
+    def is_path(n):
+        n = strip(n)
+        k = n.get("kind")
+        if k == "DeclRefExpr": return n["referencedDecl"].get("kind") == "ParmVarDecl"
+        if k == "MemberExpr" or (k == "UnaryOperator" and n.get("opcode") == "*"): return is_path(n["inner"][0])
+        return False
+    def collect(n):
+        if isinstance(n, dict):
+            if n.get("kind") == "VarDecl" and n.get("inner") and n["name"] not in assigned and is_path(n["inner"][-1]) and "*" not in n.get("type", {}).get("qualType", "").replace("const", ""):
+                alias[n["name"]] = n["inner"][-1]
+            for c in n.get("inner", []) or []: collect(c)
+    collect(body)
+    for name, sites_ in assigned.items():
+        if len(sites_) == 1 and sites_[0].get("opcode") == "=":
+            r = strip(sites_[0]["inner"][1])
+            if callee(r) == "realloc" and is_path(r["inner"][1]):
+                alias[name] = r["inner"][1]
+    def rewrite(n):
+        if isinstance(n, dict):
+            inner = n.get("inner")
+            if inner:
+                for i, c in enumerate(inner):
+                    if isinstance(c, dict):
+                        cs = c
+                        if cs.get("kind") == "DeclRefExpr" and cs.get("referencedDecl", {}).get("name") in alias and cs["referencedDecl"].get("kind") == "VarDecl":
+                            inner[i] = copy.deepcopy(alias[cs["referencedDecl"]["name"]])
+                        elif cs.get("kind") == "UnaryOperator" and cs.get("opcode") == "&" and strip(cs["inner"][0]).get("kind") == "ArraySubscriptExpr":
+                            sub = strip(cs["inner"][0])
+                            inner[i] = {"kind": "BinaryOperator", "opcode": "+", "type": cs.get("type", {}), "inner": [sub["inner"][0], sub["inner"][1]]}
+                        rewrite(inner[i])
+    rewrite(body)
+    # the declarations of the replaced locals, and assignments that have become `x = x`, carry nothing any more
+    def prune(n):
+        if isinstance(n, dict) and n.get("inner"):
+            keep = []
+            for c in n["inner"]:
+                if isinstance(c, dict) and c.get("kind") == "DeclStmt" and all(v.get("name") in alias for v in c.get("inner", [])):
+                    continue
+                if isinstance(c, dict) and c.get("kind") == "BinaryOperator" and c.get("opcode") == "=":
+                    try:
+                        if path(c["inner"][0]) == path(c["inner"][1]): continue
+                    except Unsupported:
+                        pass
+                keep.append(c)
+            n["inner"] = keep
+            for c in keep: prune(c)
+    prune(body)
+    return body
+
+
 def analyse(site, funcs):
-    body = [c for c in funcs[site["func"]]["inner"] if c.get("kind") == "CompoundStmt"][0]
+    body = simplify([c for c in funcs[site["func"]]["inner"] if c.get("kind") == "CompoundStmt"][0])
     stmts = body.get("inner", []) or []
     li = next((i for i, c in enumerate(stmts) if c.get("kind") in LOOPS), None)
     if li is None: raise Unsupported("no loop found")
